@@ -2,8 +2,8 @@
 from .. import conncheck, connmodel
 
 SERVER_FULL = ['eof', 'text', 'binary', 'frag-text', 'frag-bin', 'frag-cont', 'frag-end', 'ping', 'pong',
-               'close-1000', 'close-empty', 'reserved-op', 'bad-utf8', 'orphan-cont', 'two', 'silence', 'err']
-HANDSHAKES = ['hs-ok', 'hs-split', 'hs-with-frame', 'hs-deflate', 'hs-404', 'hs-bad-accept', 'hs-oversize']
+               'close-1000', 'close-empty', 'reserved-op', 'bad-utf8', 'orphan-cont', 'two', 'silence', 'err', 'ctext', 'cfrag-text']
+HANDSHAKES = ['hs-ok', 'hs-split', 'hs-with-frame', 'hs-deflate', 'hs-deflate-nct', 'hs-404', 'hs-bad-accept', 'hs-oversize']
 APPS = ['send_text', 'send_ping', 'close']
 
 
